@@ -85,8 +85,10 @@ def o9_3_make_room(mir, tier):
                 res.cases['imm=%s bad=%s -> %s waits=%d rotations=%d reads=%d' % (has_imm, bad_state, 'Ok' if ok else 'Err', s['waits'], s['rotations'], s['l0_reads'])] = 1
                 for label, post, m in ex.check_posts(posts, pc):
                     rep = label == LABEL_OVER
-                    res.violations.append({'label': label, 'model': {'level0': mval(m, l0), 'full': mval(m, full), 'force': mval(m, force), 'immutable_memtable': has_imm}, 'replay': ['forced_flush_over_pending'] if rep else None,
-                                           'confirmed_by': None if rep else {'reproduced': False, 'detail': 'no native scenario for this label'}})
+                    bad_ok = label.startswith('make_room_for_write returns Ok although a background error') and bad_state and ok
+                    res.violations.append({'label': label, 'model': {'level0': mval(m, l0), 'full': mval(m, full), 'force': mval(m, force), 'immutable_memtable': has_imm, 'bad_state': bad_state, 'returned_ok': ok},
+                                           'replay': ['forced_flush_over_pending'] if rep else (['write_fault', 'wal_once'] if bad_ok else None),
+                                           'confirmed_by': None if (rep or bad_ok) else {'reproduced': False, 'detail': 'no native scenario for this label'}})
             g = mir.mk_struct('GuardedDbFields', maybe_bad_database_state=Enum('Some', (Enum('Write', ({'str': 'bad'},), 'RainDBError'),)) if bad_state else Enum('None'),
                               maybe_immutable_memtable=Enum('Some', ({'abstract': True, '__ty': 'MemTable'},)) if has_imm else Enum('None'), version_set={'abstract': True, '__ty': 'VersionSet'})
             env = {'$state': {'l0': l0, 'full': full, 'waits': 0, 'rotations': 0, 'scheduled': 0, 'l0_reads': 0, 'wal_attempts': 0, 'rotated_over_pending': False}, '$db': {'abstract': True, '__ty': 'DB'}, '$g': g, '$guard': Ref('$g')}
@@ -107,6 +109,10 @@ def o9_3_make_room(mir, tier):
 def o9_3_confirm(v, out):
     """Native: 12 overlapping level-0 files and a full memtable; a writer parks on the stop-writes condition; the background
     compaction then drains level 0; the writer must be released within 15 s."""
+    if v['replay'][0] == 'write_fault':
+        # a put whose WAL append fails puts the database into its failed state; the next put (the memtable has plenty of room) must be refused
+        if out.get('_rc') != 0: return (False, 'native run failed: %s' % out.get('_stderr', '')[-300:])
+        return (out.get('second_put_result') == 'Ok' and out.get('fault_hit') == 'true', 'native: a put issued after a failed WAL append (fault hit: %s; that put returned %s) returned %s' % (out.get('fault_hit'), out.get('put_result'), out.get('second_put_result')))
     if v['replay'][0] == 'forced_flush_over_pending':
         if out.get('_rc') != 0: return (False, 'native run failed: %s' % out.get('_stderr', '')[-300:])
         return (out.get('lost', '0') != '0', 'a forced flush was requested while a rotated memtable was still waiting for its flush: %s of %s acknowledged keys are unreadable afterwards' % (out.get('lost'), out.get('written')))
